@@ -18,6 +18,7 @@ mod hdlc;
 mod hdlcprop;
 mod kernels;
 mod runners;
+mod sources;
 mod spsc;
 mod rec;
 mod ring;
@@ -85,6 +86,7 @@ fn main() {
         "c11" => kernels::main(&opts),
         "c13" => hdlcprop::main(&opts),
         "c14" => formats::main(&opts),
+        "c16" => sources::main(&opts),
         "c12" => blockprops::main(&opts, blockprops::Mode::C12),
         other => {
             eprintln!("unknown subcommand {other}");
